@@ -28,6 +28,14 @@ P = {
          "TLA+ object-table and graph-codec specification (Refs.tla) checked by TLC on every small rooted graph; each graph replayed with an Rc<RefCell<Node>> codec built on the library's reference-tracking API, compared by bytes and by pointer-identity canonical form",
          "all 2249 successor structures on <= 3 nodes (out-degree <= 2) x 2 labelings: isomorphism incl. sharing and distinctness, each reachable object written once, ids in pre-order, termination on cycles; every stream byte rewritten to an object number beyond the table must be rejected as the reference says.",
          "the graph codec is harness code (the library ships none); decoded nodes are registered from a boxed arena because the table stores raw pointers (D13)"),
+ "C11": (True, "model_checking", "6 C11",
+         "VarintCore.tla instantiated twice: over unbounded Int for Apalache (statements proved for all 2^32 u32 and all 2^32 i32 values) and over <<hi4, lo28>> pairs for TLC (all group / zig-zag boundaries, emitted as vectors); replay of the vectors through 4 sinks x 3 sources and a sweep of the real functions against a transliteration of the spec pinned to the vectors",
+         "symbolic: UnsignedRoundTrip (bijection, continuation bits, no complete strict prefix), UnsignedMinimal (exact 1-5 byte thresholds), ZigZagLemma and ZigZagOnto (bijection i32 <-> u32, signed thresholds) for every value; executed: quick sweeps every 16th u32 and i32 (random phase), thorough sweeps all 2 x 2^32 values (exhaustive).",
+         "Apalache/Z3; the 15-line Rust transliteration of VarintCore.tla (checked against every TLC vector first)"),
+ "C12": (True, "model_checking", "6 C12",
+         "TLC invariants ContainerIndependent / FormIndependent / SameBytes / BytesInterchangeable on MC_Containers.tla; cross-container replay (bytes really written by the source container read as every target container)",
+         "7 element types x all element lists of length 0..3 over 3 values x 7 source containers x targets incl. arrays of the wrong length x known / unknown length forms; the public sequence writers (serialize_iterator with exact and inexact size hint, slices); Vec<u8> / Bytes / [u8; N] among themselves.",
+         "hash containers iterate in unspecified order: ordered targets are compared as multisets in that case"),
  "C13": (True, "translation_validation", "6 C13",
          "TLC invariants CtorIdentity / ExtensionSafe / UnknownCtorErr on MC_Decl.tla; enum pairs (E, E') generated as separate derived Rust types and replayed",
          "all enums of 1-3 variants over unit/tuple/struct shapes x transient placement x sorted/unsorted (names chosen so sorting permutes), all extensions by 1-2 later constructors (appended; for sorted enums also declared first), all indices >= n incl. 127, 128, 2^28, 2^32-1: decoded by the other definition / must be the dedicated errors.",
@@ -36,6 +44,14 @@ P = {
          "TLC invariants TransientInvisible / TransientCtorErr on MC_Decl.tla and histories ending in FieldMadeTransient in MC_Evo.tla; derived types generated and replayed",
          "transient fields at every non-empty subset of positions with two different non-default values (bytes must be identical and equal to the spec's, decode must give the declared default); transient constructors at every index (SerializingTransientConstructor naming type and constructor); made-optional-then-transient declarations encode.",
          "bounded declaration universe"),
+ "C15": (True, "model_checking", "6 C15",
+         "replay of the C01 universe on five sinks + SizeCalculator against the specification's bytes; MC_Prim.tla reader state machine (cursor semantics of every primitive read) checked by TLC and replayed on the three BinaryInput implementations",
+         "sinks: every (type, value) of the built-in universe on Vec<u8>, BytesMut, serialize_to_bytes, serialize_to_byte_vec, a recording user-defined output (all byte-identical and equal to the spec) and SizeCalculator (exact length). sources: every script of <= 2 (quick) / 3 (thorough) primitive reads (fixed width, var_u32, var_i32, bytes / skip of 0, 1, 3 and usize::MAX) over every byte string of length <= 3 over the hostile alphabet: results, first InputEnded and cursor position identical to the model on SliceInput, OwnedInput and DeserializationContext.",
+         "compressed blocks are C16's business"),
+ "C17": (True, "model_checking", "6 C17",
+         "TLC invariant EncTotal on MC_EncTotal.tla (outcome of the reference encoder is Ok or the documented error class); replay under catch_unwind on every sink; exhaustive sweep of all Unicode scalar values; counts announced through exact size hints",
+         "all 1 112 064 scalar values of char (encodable iff <= U+FFFF); unencodable characters nested in 7 container / record shapes (error propagates, every entry point hands back Err); dangling FieldMadeOptional -> UnknownFieldReferenceInEvolutionStep; a record with 254 declared steps; sequence counts i32::MAX / i32::MAX+1 / u32::MAX / u32::MAX+1; (thorough) a 2 GiB string and a 4 GiB byte vector; transient constructors in C14's universe.",
+         "write_compressed with >= 4 GiB input is not executed (minutes of DEFLATE); its length check is the same try_into pattern"),
  "C03": (True, "model_checking", "6 C03",
          "TLA+ Adt.tla: TLC enumerates all legal evolution histories and checks mechanism (header/chunks/regions) = documented outcome; each history is rendered as derive inputs (one Rust type per version) and every (writer, reader, value, embedding) case replayed",
          "every legal history up to 2 steps (quick) / 3 steps (thorough) from every initial record of 1-2 fields, all version pairs, all values, four embeddings (top level, in a tuple, in a chunk, in a vector in a chunk); expected outcome computed by the specification's Expected operator written from the documentation; vacuity guards: dropping the legality rule or the DESIGN-9 exclusion makes TLC fail.",
